@@ -39,7 +39,8 @@ Record key := mkKey { k_flow : nat; k_dir : bool }.
 Definition key_eqb (a b : key) : bool := Nat.eqb (k_flow a) (k_flow b) && Bool.eqb (k_dir a) (k_dir b).
 Definition key_rev (k : key) : key := mkKey (k_flow k) (negb (k_dir k)).
 
-Record packet := mkPkt { p_key : key; p_syn : bool; p_fin : bool; p_seq : Z; p_bytes : list Z }.
+(* p_ts: the capture timestamp handed to Assemble (abstract seconds) *)
+Record packet := mkPkt { p_key : key; p_syn : bool; p_fin : bool; p_seq : Z; p_bytes : list Z; p_ts : Z }.
 
 (* one Reassembly (tcpassembly) / the summary of one ScatterGather (reassembly) *)
 Record chunk := mkChunk { ch_bytes : list Z; ch_skip : Z; ch_start : bool; ch_end : bool }.
@@ -53,15 +54,20 @@ Inductive pkg := Tcp | Rsm.
 (* which code: g_fixme = true : reassembly/memory.go still has the FIXME panic (unchanged tree);
                g_recycle = true : remove pushes the connection object on the free list (the
                code as it is; false is a hypothetical repair used to state what recycling costs) *)
-Record config := mkCfg { g_pkg : pkg; g_fixme : bool; g_recycle : bool }.
+(*             g_trail = true : reassembly's FlushWithOptions calls remove() once more after it has
+               released the connection lock (tcpassembly.go:1281-1287, the code as it is) *)
+Record config := mkCfg { g_pkg : pkg; g_fixme : bool; g_recycle : bool; g_trail : bool }.
 Definition is_rsm (g : config) : bool := match g_pkg g with Rsm => true | Tcp => false end.
 
-Inductive op := OPkt (p : packet) | OFlush.
+(* OFlush None = FlushAll; OFlush (Some T) = tcpassembly FlushOlderThan(T) (FlushWithOptions
+   :238-276 with CloseAll) / reassembly FlushCloseOlderThan(T) (FlushWithOptions :1265-1290) *)
+Inductive op := OPkt (p : packet) | OFlush (age : option Z).
 
 Inductive want :=
 | WPkt (p : packet) (fwd : bool)      (* Assemble: process p on the half chosen by the lookup *)
-| WFlush (rest : list nat).           (* FlushAll: this connection, then the rest of the snapshot *)
-Inductive cont := KNext | KFlush (rest : list nat).
+| WFlush (age : option Z) (rest : list nat).  (* flush: this connection, then the rest of the snapshot *)
+(* KFlush .. trail: reassembly's second remove() of this connection is still to come *)
+Inductive cont := KNext | KFlush (age : option Z) (rest : list nat) (trail : bool).
 
 Inductive pc :=
 | PStart                              (* before a call of Assemble / FlushAll *)
@@ -69,10 +75,13 @@ Inductive pc :=
 | PWant (c : nat) (w : want)          (* before conn.mu.Lock() of connection object c *)
 | PRemove (c : nat) (k : cont)        (* holding c's lock, before the pool section of remove *)
 | PRetry (p : packet)                 (* tcpassembly: connection was closed, look up again *)
+| PRemove2 (c : nat) (age : option Z) (rest : list nat)
+                                      (* reassembly FlushWithOptions: connection lock released, before the
+                                         second remove(conn) (site pool.remove, no connection lock held) *)
 | PDone
 | PPanic.
 
-Inductive tag := TgRaceLost | TgBothDir | TgCloseLL | TgRecycle | TgStale | TgRetry | TgFlushStale.
+Inductive tag := TgRaceLost | TgBothDir | TgCloseLL | TgRecycle | TgStale | TgRetry | TgFlushStale | TgTrail | TgAgeFlush.
 
 Inductive loc := LPool | LKey (c : nat) | LSt (c : nat).
 Inductive lock := KPool | KObj (c : nat).
@@ -96,8 +105,10 @@ Section Pool.
 Variable cstate : Type.
 Variable cinit : cstate.
 Variable cclosed : cstate -> bool.
+Variable creset : packet -> cstate.            (* connection.reset for the packet that creates the connection *)
 Variable process : cstate -> bool -> packet -> cstate * list cevent * bool.
-Variable flush : cstate -> cstate * list cevent * bool.
+Variable flush : option Z -> cstate -> cstate * list cevent * bool.
+Variable ctrail : option Z -> cstate -> bool.  (* reassembly: FlushWithOptions decides to remove(conn) after unlocking *)
 
 (* a connection object (tcpassembly.connection / reassembly.connection) *)
 Record conn := mkConn { c_key : key; c_stream : nat; c_st : cstate; c_lock : option nat }.
@@ -160,8 +171,8 @@ Definition end_flag (g : config) (p : packet) : bool :=
   end.
 
 Definition next_pc (prog : list op) : pc := match prog with [] => PDone | _ => PStart end.
-Definition cont_flush (rest : list nat) (prog : list op) : pc :=
-  match rest with c :: r => PWant c (WFlush r) | [] => next_pc prog end.
+Definition cont_flush (age : option Z) (rest : list nat) (prog : list op) : pc :=
+  match rest with c :: r => PWant c (WFlush age r) | [] => next_pc prog end.
 
 Definition enabled (s : state) (t : nat) : bool :=
   match t_pc (thr s t) with
@@ -205,11 +216,12 @@ Definition exec (g : config) (s : state) (t : nat) : option state :=
         Some (mkSt (s_conns s) (s_free s) (s_objs s) (s_nsid s) (s_kept s)
                    (set_thr s t (mkThr (next_pc rest) rest)) (s_log s) (s_tags s))
       else Some (do_lookup g s t p rest)
-    | OFlush :: rest =>
+    | OFlush age :: rest =>
       (* connections(): snapshot of the map under the read lock *)
       let snap := sort_ids (map snd (s_conns s)) in
       Some (mkSt (s_conns s) (s_free s) (s_objs s) (s_nsid s) (s_kept s)
-                 (set_thr s t (mkThr (cont_flush snap rest) rest)) (s_log s) (s_tags s))
+                 (set_thr s t (mkThr (cont_flush age snap rest) rest)) (s_log s)
+                 (match age with Some _ => TgAgeFlush :: s_tags s | None => s_tags s end))
     end
   | PRetry p => Some (do_lookup g s t p prog)
   | PMiss p =>
@@ -222,7 +234,7 @@ Definition exec (g : config) (s : state) (t : nat) : option state :=
       | [] => (length (s_objs s), [], s_objs s ++ [blank], false)
       end in
     let old := nth c objs0 blank in
-    let objs1 := set_obj objs0 c (mkConn k sid cinit (c_lock old)) in
+    let objs1 := set_obj objs0 c (mkConn k sid (creset p) (c_lock old)) in
     let tags1 := if recycled then TgRecycle :: s_tags s else s_tags s in
     let log1 := ENew t k sid :: s_log s in
     match lookup g (s_conns s) k with
@@ -261,16 +273,25 @@ Definition exec (g : config) (s : state) (t : nat) : option state :=
         else
           Some (mkSt (s_conns s) (s_free s) (set_obj (s_objs s) c (mkConn (c_key o) (c_stream o) st' None))
                      (s_nsid s) (s_kept s) (set_thr s t (mkThr (next_pc prog) prog)) log1 tags2)
-    | WFlush rest =>
+    | WFlush age rest =>
+      if (match g_pkg g with Tcp => cclosed (c_st o) | Rsm => false end) then
+        (* assembly.go:255-260 (FlushWithOptions) / :298 (FlushAll): a connection closed since the
+           snapshot was taken is not touched *)
+        Some (mkSt (s_conns s) (s_free s) (s_objs s) (s_nsid s) (s_kept s)
+                   (set_thr s t (mkThr (cont_flush age rest prog) prog)) (s_log s) (TgFlushStale :: s_tags s))
+      else
       let tags1 := if cclosed (c_st o) then TgFlushStale :: s_tags s else s_tags s in
-      let '(st', evs, closes) := flush (c_st o) in
+      let '(st', evs, closes) := flush age (c_st o) in
+      let trail := is_rsm g && g_trail g && ctrail age st' in
+      let tags2 := if trail then TgTrail :: tags1 else tags1 in
       let log1 := rev (map (ECall t (c_stream o) c) evs) ++ s_log s in
       if closes then
         Some (mkSt (s_conns s) (s_free s) (set_obj (s_objs s) c (mkConn (c_key o) (c_stream o) st' (Some t)))
-                   (s_nsid s) (s_kept s) (set_thr s t (mkThr (PRemove c (KFlush rest)) prog)) log1 tags1)
+                   (s_nsid s) (s_kept s) (set_thr s t (mkThr (PRemove c (KFlush age rest trail)) prog)) log1 tags2)
       else
         Some (mkSt (s_conns s) (s_free s) (set_obj (s_objs s) c (mkConn (c_key o) (c_stream o) st' None))
-                   (s_nsid s) (s_kept s) (set_thr s t (mkThr (cont_flush rest prog) prog)) log1 tags1)
+                   (s_nsid s) (s_kept s)
+                   (set_thr s t (mkThr (if trail then PRemove2 c age rest else cont_flush age rest prog) prog)) log1 tags2)
     end
   | PRemove c k =>
     let o := obj s c in
@@ -279,9 +300,20 @@ Definition exec (g : config) (s : state) (t : nat) : option state :=
     let doit := match g_pkg g with Tcp => true | Rsm => present end in
     let conns' := if doit then remove_assoc (c_key o) (s_conns s) else s_conns s in
     let free' := if doit && g_recycle g then c :: s_free s else s_free s in
-    let pc' := match k with KNext => next_pc prog | KFlush rest => cont_flush rest prog end in
+    let pc' := match k with
+               | KNext => next_pc prog
+               | KFlush age rest trail => if trail then PRemove2 c age rest else cont_flush age rest prog
+               end in
     Some (mkSt conns' free' (set_obj (s_objs s) c (mkConn (c_key o) (c_stream o) (c_st o) None))
                (s_nsid s) (s_kept s) (set_thr s t (mkThr pc' prog)) (s_log s) (s_tags s))
+  | PRemove2 c age rest =>
+    (* reassembly remove(conn) without the connection lock: memory.go:123-130 *)
+    let o := obj s c in
+    let present := match assoc (c_key o) (s_conns s) with Some _ => true | None => false end in
+    let conns' := if present then remove_assoc (c_key o) (s_conns s) else s_conns s in
+    let free' := if present && g_recycle g then c :: s_free s else s_free s in
+    Some (mkSt conns' free' (s_objs s) (s_nsid s) (s_kept s)
+               (set_thr s t (mkThr (cont_flush age rest prog) prog)) (s_log s) (s_tags s))
   end.
 
 (* shared accesses of the step thread t would take from s, each with the locks held *)
@@ -293,9 +325,10 @@ Definition accesses (g : config) (s : state) (t : nat) : list access :=
     match t_prog th with
     | [] => []
     | OPkt p :: _ => if ignored g p then [] else [mkAcc LPool false [KPool]]
-    | OFlush :: _ => [mkAcc LPool false [KPool]]
+    | OFlush _ :: _ => [mkAcc LPool false [KPool]]
     end
   | PRetry _ => [mkAcc LPool false [KPool]]
+  | PRemove2 c _ _ => [mkAcc (LKey c) false [KPool]; mkAcc LPool true [KPool]]
   | PMiss p =>
     let c := match s_free s with c :: _ => c | [] => length (s_objs s) end in
     [mkAcc LPool true [KPool]; mkAcc (LKey c) true [KPool]; mkAcc (LSt c) true [KPool]] ++
@@ -364,7 +397,7 @@ Definition run_case (g : config) (fuel : nat) (progs : list (list op)) (sched : 
   let '(s2, r2) := run_rest g fuel s1 r1 in
   if any_enabled s2 then (s2, r2)
   else if negb (all_done s2) then (s2, r2)      (* stuck *)
-  else run_rest g fuel (add_thread s2 [OFlush]) r2.
+  else run_rest g fuel (add_thread s2 [OFlush None]) r2.
 
 (* ------------------------------------------------- executable statements of the properties *)
 Fixpoint nodupb (l : list nat) : bool :=
@@ -429,9 +462,11 @@ Open Scope Z_scope.
 Definition zlen (l : list Z) : Z := Z.of_nat (length l).
 
 (* ---------------------------------------------------------------- tcpassembly *)
-Record tpage := mkTP { tp_seq : Z; tp_bytes : list Z; tp_end : bool }.
-Record tconn := mkTC { tc_next : option Z; tc_q : list tpage; tc_closed : bool }.
-Definition tc_init : tconn := mkTC None [] false.
+Record tpage := mkTP { tp_seq : Z; tp_bytes : list Z; tp_end : bool; tp_seen : Z }.
+Record tconn := mkTC { tc_next : option Z; tc_q : list tpage; tc_closed : bool; tc_last : Z }.
+Definition tc_init : tconn := mkTC None [] false 0.
+(* assembly.go:394-403 reset: created = lastSeen = ts *)
+Definition tcp_reset (p : packet) : tconn := mkTC None [] false (p_ts p).
 
 (* assembly.go:612-623 byteSpan; expected = None is invalidSequence *)
 Definition byte_span (expected : option Z) (received : Z) (bytes : list Z) : list Z * Z :=
@@ -476,48 +511,76 @@ Definition last_end (l : list chunk) : bool :=
   match rev l with c :: _ => ch_end c | [] => false end.
 
 (* assembly.go:627-636 sendToConnection (+ closeConnection's callback) *)
-Definition t_send (ret : list chunk) (next : Z) (q : list tpage) : tconn * list cevent * bool :=
+Definition t_send (ret : list chunk) (next : Z) (q : list tpage) (last : Z) : tconn * list cevent * bool :=
   let '(ret', n', q') := t_add_contig next q ret in
-  if last_end ret' then (mkTC (Some n') q' true, [CReasm false ret'; CComplete], true)
-  else (mkTC (Some n') q' false, [CReasm false ret'], false).
+  if last_end ret' then (mkTC (Some n') q' true last, [CReasm false ret'; CComplete], true)
+  else (mkTC (Some n') q' false last, [CReasm false ret'], false).
 
 (* assembly.go:567-609, under the connection lock *)
 Definition tcp_process (st : tconn) (fwd : bool) (p : packet) : tconn * list cevent * bool :=
   if tc_closed st then (st, [], false) else
   let seq := p_seq p in let bytes := p_bytes p in
+  let last := if tc_last st <? p_ts p then p_ts p else tc_last st in      (* :577-579 *)
+  let pg := mkTP seq bytes (p_fin p) (p_ts p) in
   match tc_next st with
   | None =>
-    if p_syn p then t_send [mkChunk bytes 0 true false] (seq + zlen bytes + 1) (tc_q st)
-    else (mkTC None (t_insert (mkTP seq bytes (p_fin p)) (tc_q st)) false, [], false)
+    if p_syn p then t_send [mkChunk bytes 0 true false] (seq + zlen bytes + 1) (tc_q st) last
+    else (mkTC None (t_insert pg (tc_q st)) false last, [], false)
   | Some n =>
-    if 0 <? seq - n then (mkTC (Some n) (t_insert (mkTP seq bytes (p_fin p)) (tc_q st)) false, [], false)
+    (* :583-587 (repaired tree): the payload of a late SYN starts at seq+1 *)
+    let seq := if p_syn p then seq + 1 else seq in
+    if 0 <? seq - n then (mkTC (Some n) (t_insert pg (tc_q st)) false last, [], false)   (* page at t.Seq, :739,:763 *)
     else let '(b, n') := byte_span (Some n) seq bytes in
-         t_send [mkChunk b 0 false (p_fin p)] n' (tc_q st)
+         t_send [mkChunk b 0 false (p_fin p)] n' (tc_q st) last
   end.
 
-(* assembly.go:279-290 FlushAll on one connection: for !closed { skipFlush } (:648-660) *)
+(* assembly.go FlushAll on one connection: for !closed { skipFlush } *)
 Fixpoint t_flush_loop (fuel : nat) (st : tconn) (acc : list cevent) : tconn * list cevent * bool :=
   match fuel with
   | O => (st, acc, false)
   | S f =>
     match tc_q st with
-    | [] => (mkTC (tc_next st) [] true, acc ++ [CComplete], true)
+    | [] => (mkTC (tc_next st) [] true (tc_last st), acc ++ [CComplete], true)
     | pg :: r =>
       let '(ch, n') := t_add_next (tc_next st) pg in
-      let '(st', evs, closes) := t_send [ch] n' r in
+      let '(st', evs, closes) := t_send [ch] n' r (tc_last st) in
       if closes then (st', acc ++ evs, true) else t_flush_loop f st' (acc ++ evs)
     end
   end.
-Definition tcp_flush (st : tconn) : tconn * list cevent * bool :=
-  if tc_closed st then (st, [], false) else t_flush_loop (S (length (tc_q st))) st [].
+(* assembly.go:261-273 FlushWithOptions{T, CloseAll} on one open connection *)
+Fixpoint t_age_loop (fuel : nat) (T : Z) (st : tconn) (acc : list cevent) : tconn * list cevent * bool :=
+  match fuel with
+  | O => (st, acc, false)
+  | S f =>
+    match tc_q st with
+    | pg :: r =>
+      if tp_seen pg <? T then
+        let '(ch, n') := t_add_next (tc_next st) pg in
+        let '(st', evs, closes) := t_send [ch] n' r (tc_last st) in
+        if closes then (st', acc ++ evs, true) else t_age_loop f T st' (acc ++ evs)
+      else (st, acc, false)
+    | [] =>
+      if tc_last st <? T then (mkTC (tc_next st) [] true (tc_last st), acc ++ [CComplete], true)
+      else (st, acc, false)
+    end
+  end.
+Definition tcp_flush (age : option Z) (st : tconn) : tconn * list cevent * bool :=
+  if tc_closed st then (st, [], false) else
+  match age with
+  | None => t_flush_loop (S (length (tc_q st))) st []
+  | Some T => t_age_loop (S (length (tc_q st))) T st []
+  end.
+Definition tcp_trail (age : option Z) (st : tconn) : bool := false.
 
 (* ---------------------------------------------------------------- reassembly *)
-Record rpage := mkRP { rp_seq : Z; rp_bytes : list Z; rp_end : bool }.
-Record half := mkHalf { h_next : option Z; h_q : list rpage; h_closed : bool }.
+Record rpage := mkRP { rp_seq : Z; rp_bytes : list Z; rp_end : bool; rp_seen : Z }.
+Record half := mkHalf { h_next : option Z; h_q : list rpage; h_closed : bool; h_last : Z }.
 Record rconn := mkRC { r_c2s : half; r_s2c : half; r_unsup : bool }.
-Definition h_init : half := mkHalf None [] false.
+Definition h_init : half := mkHalf None [] false 0.
 Definition rc_init : rconn := mkRC h_init h_init false.
 Definition rc_closed (st : rconn) : bool := h_closed (r_c2s st) && h_closed (r_s2c st).
+(* tcpassembly.go:455-466 reset: created = lastSeen = ts in both half-connections *)
+Definition rsm_reset (p : packet) : rconn := mkRC (mkHalf None [] false (p_ts p)) (mkHalf None [] false (p_ts p)) false.
 
 (* tcpassembly.go:752-887 checkOverlap on the reversed queue; returns (pages left of the
    insertion point, reversed; pages right of it; what is left of the new bytes; a page was cut
@@ -536,23 +599,23 @@ Fixpoint r_overlap (revq : list rpage) (rgt : list rpage) (start e : Z) (bytes :
         let de := cur_end - e in
         if (de <=? 0) && (0 <=? ds) then r_overlap rest rgt start e bytes cut              (* case 3 *)
         else if (de <? 0) && (0 <? cur_end - start) then                                    (* case 2 *)
-          (mkRP (rp_seq cur) (firstn (Z.to_nat (start - rp_seq cur)) (rp_bytes cur)) (rp_end cur) :: rest,
+          (mkRP (rp_seq cur) (firstn (Z.to_nat (start - rp_seq cur)) (rp_bytes cur)) (rp_end cur) (rp_seen cur) :: rest,
            rgt, bytes, true)
         else if (0 <? ds) && (rp_seq cur - e <? 0) then                                     (* case 4 *)
-          r_overlap rest (mkRP e (skipn (Z.to_nat (e - rp_seq cur)) (rp_bytes cur)) (rp_end cur) :: rgt)
+          r_overlap rest (mkRP e (skipn (Z.to_nat (e - rp_seq cur)) (rp_bytes cur)) (rp_end cur) (rp_seen cur) :: rgt)
                     start e bytes true
         else if (0 <=? de) && (ds <=? 0) then                                               (* case 6 *)
           let off := Z.to_nat (- ds) in
           let nb := firstn off (rp_bytes cur) ++ bytes ++ skipn (off + length bytes) (rp_bytes cur) in
-          r_overlap rest (mkRP (rp_seq cur) nb (rp_end cur) :: rgt) start e []
+          r_overlap rest (mkRP (rp_seq cur) nb (rp_end cur) (rp_seen cur) :: rgt) start e []
                     (cut || negb (match bytes with [] => true | _ => false end))
         else r_overlap rest (cur :: rgt) start e bytes cut
   end.
 
-Definition r_check_overlap (q : list rpage) (queue : bool) (start : Z) (bytes : list Z) (fin : bool)
+Definition r_check_overlap (q : list rpage) (queue : bool) (start : Z) (bytes : list Z) (fin : bool) (ts : Z)
   : list rpage * list Z * bool :=
   let '(left_rev, rgt, bytes', cut) := r_overlap (rev q) [] start (start + zlen bytes) bytes false in
-  let ins := match bytes' with [] => [] | _ => if queue then [mkRP start bytes' fin] else [] end in
+  let ins := match bytes' with [] => [] | _ => if queue then [mkRP start bytes' fin ts] else [] end in
   (rev left_rev ++ ins ++ rgt, bytes', cut).
 
 (* tcpassembly.go:930-956 overlapExisting *)
@@ -591,31 +654,37 @@ Definition r_after_close (st : rconn) : list cevent * bool :=
   if rc_closed st then ([CComplete], true) else ([], false).
 
 (* tcpassembly.go:657-739 under the connection lock; the stream accepts everything *)
-Definition rsm_process (st : rconn) (fwd : bool) (p : packet) : rconn * list cevent * bool :=
-  let h := if fwd then r_c2s st else r_s2c st in
+Definition rsm_process (st0 : rconn) (fwd : bool) (p : packet) : rconn * list cevent * bool :=
+  let h0 := if fwd then r_c2s st0 else r_s2c st0 in
   let dir := negb fwd in
+  (* :659-661 lastSeen is advanced before anything else, also on a closed half *)
+  let h := mkHalf (h_next h0) (h_q h0) (h_closed h0) (if h_last h0 <? p_ts p then p_ts p else h_last h0) in
+  let st := set_half st0 fwd h false in
   if h_closed h then (st, [], false) else
   let bytes := p_bytes p in
   let '(queue, seq, next1) :=
     match h_next h with
     | None => if p_syn p then (false, p_seq p + 1, Some (p_seq p + 1)) else (true, p_seq p, None)
-    | Some n => if 0 <? p_seq p - n then (true, p_seq p, Some n) else (false, p_seq p, Some n)
+    | Some n =>
+      (* repaired tree: a late SYN takes one sequence number too *)
+      let sq := if p_syn p then p_seq p + 1 else p_seq p in
+      if 0 <? sq - n then (true, sq, Some n) else (false, sq, Some n)
     end in
   if queue then
-    let '(q', _, cut) := r_check_overlap (h_q h) true seq bytes (p_fin p) in
-    (set_half st fwd (mkHalf next1 q' false) cut, [], false)
+    let '(q', _, cut) := r_check_overlap (h_q h) true seq bytes (p_fin p) (p_ts p) in
+    (set_half st fwd (mkHalf next1 q' false (h_last h)) cut, [], false)
   else
     let '(b1, seq1) := r_overlap_existing next1 seq bytes in
-    let '(q1, b2, cut) := r_check_overlap (h_q h) false seq1 b1 (p_fin p) in
+    let '(q1, b2, cut) := r_check_overlap (h_q h) false seq1 b1 (p_fin p) (p_ts p) in
     if (match b2 with [] => false | _ => true end) || p_fin p || p_syn p then
       let '(ev, q2, e, nseq) := r_send dir next1 q1 seq1 b2 (p_syn p) (p_fin p) in
       let next2 := Some (if p_fin p then nseq + 1 else nseq) in
       if e then
-        let st' := set_half st fwd (mkHalf next2 [] true) cut in
+        let st' := set_half st fwd (mkHalf next2 [] true (h_last h)) cut in
         let '(evs, closes) := r_after_close st' in
         (st', ev :: evs, closes)
-      else (set_half st fwd (mkHalf next2 q2 false) cut, [ev], false)
-    else (set_half st fwd (mkHalf next1 q1 false) cut, [], false).
+      else (set_half st fwd (mkHalf next2 q2 false (h_last h)) cut, [ev], false)
+    else (set_half st fwd (mkHalf next1 q1 false (h_last h)) cut, [], false).
 
 (* skipFlush :1181-1197 repeated until the half is closed (FlushAll :1326-1333) *)
 Fixpoint r_flush_half (fuel : nat) (dir : bool) (h : half) (acc : list cevent) : half * list cevent :=
@@ -624,24 +693,59 @@ Fixpoint r_flush_half (fuel : nat) (dir : bool) (h : half) (acc : list cevent) :
   | S f =>
     if h_closed h then (h, acc) else
     match h_q h with
-    | [] => (mkHalf (h_next h) [] true, acc)
+    | [] => (mkHalf (h_next h) [] true (h_last h), acc)
     | pg :: r =>
       let '(ev, q', e, nseq) := r_send dir (h_next h) r (rp_seq pg) (rp_bytes pg) false (rp_end pg) in
-      if e then (mkHalf (Some nseq) [] true, acc ++ [ev])
-      else r_flush_half f dir (mkHalf (Some nseq) q' false) (acc ++ [ev])
+      if e then (mkHalf (Some nseq) [] true (h_last h), acc ++ [ev])
+      else r_flush_half f dir (mkHalf (Some nseq) q' false (h_last h)) (acc ++ [ev])
     end
   end.
 
-Definition rsm_flush (st : rconn) : rconn * list cevent * bool :=
+(* flushClose :1297-1316 on one half: pages older than T are pushed out; the half is closed when
+   nothing is queued and the whole connection was last seen before T (lastc = conn.lastSeen()) *)
+Fixpoint r_age_half (fuel : nat) (T lastc : Z) (dir : bool) (h : half) (acc : list cevent) : half * list cevent :=
+  match fuel with
+  | O => (h, acc)
+  | S f =>
+    if h_closed h then (h, acc) else
+    match h_q h with
+    | pg :: r =>
+      if rp_seen pg <? T then
+        let '(ev, q', e, nseq) := r_send dir (h_next h) r (rp_seq pg) (rp_bytes pg) false (rp_end pg) in
+        if e then (mkHalf (Some nseq) [] true (h_last h), acc ++ [ev])
+        else r_age_half f T lastc dir (mkHalf (Some nseq) q' false (h_last h)) (acc ++ [ev])
+      else (h, acc)
+    | [] => if lastc <? T then (mkHalf (h_next h) [] true (h_last h), acc) else (h, acc)
+    end
+  end.
+
+Definition rc_last (st : rconn) : Z := Z.max (h_last (r_c2s st)) (h_last (r_s2c st)).
+
+Definition rsm_flush (age : option Z) (st : rconn) : rconn * list cevent * bool :=
   if rc_closed st then (st, [], false) else
-  let '(hs, e1) := r_flush_half (S (length (h_q (r_s2c st)))) true (r_s2c st) [] in
-  let '(hc, e2) := r_flush_half (S (length (h_q (r_c2s st)))) false (r_c2s st) e1 in
-  (mkRC hc hs (r_unsup st), e2 ++ [CComplete], true).
+  match age with
+  | None =>
+    let '(hs, e1) := r_flush_half (S (length (h_q (r_s2c st)))) true (r_s2c st) [] in
+    let '(hc, e2) := r_flush_half (S (length (h_q (r_c2s st)))) false (r_c2s st) e1 in
+    (mkRC hc hs (r_unsup st), e2 ++ [CComplete], true)
+  | Some T =>
+    let lastc := rc_last st in
+    let '(hs, e1) := r_age_half (S (length (h_q (r_s2c st)))) T lastc true (r_s2c st) [] in
+    let '(hc, e2) := r_age_half (S (length (h_q (r_c2s st)))) T lastc false (r_c2s st) e1 in
+    let st' := mkRC hc hs (r_unsup st) in
+    if rc_closed st' then (st', e2 ++ [CComplete], true) else (st', e2, false)
+  end.
+(* :1281-1283 the connection is removed (again) after the lock is released *)
+Definition rsm_trail (age : option Z) (st : rconn) : bool :=
+  match age with
+  | None => false
+  | Some T => rc_closed st && (h_last (r_s2c st) <? T) && (h_last (r_c2s st) <? T)
+  end.
 
 (* ---------------------------------------------------------------- the two instantiated runs *)
-Definition cfg_tcp : config := mkCfg Tcp false true.
-Definition cfg_rsm_orig : config := mkCfg Rsm true true.      (* unchanged tree: FIXME panic present *)
-Definition cfg_rsm : config := mkCfg Rsm false true.          (* repaired: the panic is gone *)
+Definition cfg_tcp : config := mkCfg Tcp false true true.
+Definition cfg_rsm_orig : config := mkCfg Rsm true true true.      (* unchanged tree: FIXME panic present *)
+Definition cfg_rsm : config := mkCfg Rsm false true true.          (* repaired: the panic is gone *)
 
-Definition run_tcp := run_case tconn tc_init tc_closed tcp_process tcp_flush.
-Definition run_rsm := run_case rconn rc_init rc_closed rsm_process rsm_flush.
+Definition run_tcp := run_case tconn tc_init tc_closed tcp_reset tcp_process tcp_flush tcp_trail.
+Definition run_rsm := run_case rconn rc_init rc_closed rsm_reset rsm_process rsm_flush rsm_trail.
